@@ -23,8 +23,27 @@ impl<H: std::hash::Hasher + Default> OmhDyn for ProbOrdMinHash2<H> {
         self.verif_set_seed(s)
     }
 }
+/// a true identity hasher for already hashed 64-bit identifiers (the hasher is a free type parameter of the sketcher)
+#[derive(Default)]
+struct IdentHasher(u64);
+impl std::hash::Hasher for IdentHasher {
+    fn write(&mut self, bytes: &[u8]) {
+        let mut b = [0u8; 8];
+        let n = bytes.len().min(8);
+        b[..n].copy_from_slice(&bytes[..n]);
+        self.0 = u64::from_le_bytes(b);
+    }
+    fn write_u64(&mut self, i: u64) {
+        self.0 = i;
+    }
+    fn finish(&self) -> u64 {
+        self.0
+    }
+}
+
 fn new_dyn(hasher: &str, m: usize, l: usize) -> Box<dyn OmhDyn> {
     match hasher {
+        "ident" => Box::new(ProbOrdMinHash2::<IdentHasher>::new(m as u32, l)),
         "nohash" => Box::new(ProbOrdMinHash2::<probminhash::nohasher::NoHashHasher>::new(m as u32, l)),
         _ => Box::new(ProbOrdMinHash2::<FnvHasher>::new(m as u32, l)),
     }
